@@ -220,6 +220,12 @@ def eval_helpers(repo) -> Dict[str, Tuple[str, str]]:
     it, fn = module_fn("reading_count")
     cl = _series([0, 1, 1], sub=True)
     res.append(_compare("reading_count(helper readings [0, 1, 1])", _run(it, fn, [cl, "X"]), _expect(spec_count, cl, "X")))
+    # dotted names into a dict-valued reading: the field, not the parent dict, decides what counts (a field that is still warming up)
+    for pat in ([1, 1, 0, 1, 1], [1, 1, 1, 1, 0], [0, 0, 1, 1]):
+        it, fn = module_fn("reading_count")
+        cl = _series([1] * len(pat), value=lambda i, pat=pat: {"a": float(2 ** i), "b": float(3 ** i) if pat[i] else None})
+        res.append(_compare(f"reading_count(dict readings, 'X.b' present {pat})", _run(it, fn, [cl, "X.b"]), _expect(spec_count, cl, "X.b")))
+        res.append(_compare(f"reading_count(dict readings, 'X.a', 'b' present {pat})", _run(it, fn, [cl, "X.a"]), _expect(spec_count, cl, "X.a")))
     out["reading_count"] = _fold(res)
     # reading_period
     res = []
